@@ -256,5 +256,11 @@ FirstDiff(a, b) == IF a.inst # b.inst THEN <<"instantiation", a.inst, b.inst>>
                    ELSE IF a.globals # b.globals THEN <<"exported-globals", a.globals, b.globals>>
                    ELSE IF a.tables # b.tables THEN <<"exported-tables", a.tables, b.tables>>
                    ELSE <<"exported-memories">>
-Equivalent == Done => (~Comparable \/ obsIn = Obs \/ PrintT("REJECT " \o ToJson(<<Cases[c].id, "behaviour-differs">> \o FirstDiff(obsIn, Obs))))
+\* what a host has to provide: the import names and kinds (a pass may drop imports nothing uses, never add or rename one)
+RanOf(f) == {f[x] : x \in DOMAIN f}
+BagOf(sq) == [x \in RanOf(sq) |-> Cardinality({q \in DOMAIN sq : sq[q] = x})]
+LinkageSame == IF Cases[c].lenient_inst THEN RanOf(Cases[c].outp.imports) \subseteq RanOf(Cases[c].inp.imports)
+               ELSE BagOf(Cases[c].outp.imports) = BagOf(Cases[c].inp.imports)
+Equivalent == Done => /\ (LinkageSame \/ PrintT("REJECT " \o ToJson(<<Cases[c].id, "imports-differ", Cases[c].inp.imports, Cases[c].outp.imports>>)))
+                      /\ (~Comparable \/ obsIn = Obs \/ PrintT("REJECT " \o ToJson(<<Cases[c].id, "behaviour-differs">> \o FirstDiff(obsIn, Obs))))
 =============================================================================
